@@ -11,6 +11,30 @@ SEEDS = os.path.join(ROOT, "seeded")
 
 # name -> (property, change, needs, strengthening made because of this seed or "")
 TABLE = {
+    "C03-1": ("C03", "RefineVisitor::bvisit(Log) merges the log(b**e) and perfect-power branches and builds the inner logarithm with make_rcp<const Log>(base) instead of log(base)",
+              "refine()/simplify() of log(b**e) with b provably positive and e real where b is E, a Rational or an inexact number (log() would evaluate or split it): refine(log(exp(2))) = 2*Log(E)", ""),
+    "C04-1": ("C04", "and_or<caller> splices the container of a nested And/Or without checking the spliced members against x/Not(x) pairs (complement test folded into the insertion loop)",
+              "an operand and its complement in DIFFERENT nested groups of the same operator: and({and({a,b}), and({!a,c})}) = And(a,b,c,!a) while the flat call gives False", ""),
+    "C07-1": ("C07", "Complex::powcomp reduces the exponent with integer_class % 4 (truncating) instead of the floored mod_f",
+              "a purely imaginary exact Complex base (I, 2*I, the I coefficient of I*x) raised to a NEGATIVE integer congruent to 1 or 2 mod 4 (-2, -3, -6, -7): pow(I*x, -2) = -I/x**2", ""),
+    "C08-1": ("C08", "lowergamma: the term x**(s-1)*exp(-x) hoisted out of both recursion branches, the downward branch needs x**s",
+              "s a NEGATIVE half-integer (-1/2, -3/2, ...) and x != 1", ""),
+    "C09-1": ("C09", "ExpandVisitor::pow_expand inserts a bare Symbol factor with std::map::insert (keeps an existing exponent) instead of Mul::dict_add_term",
+              "(sum)**n with n >= 3 where the sum contains a bare symbol AND another term with the same symbol (x**2, x*y, 1/x) that is visited first in the hash-ordered dictionary: expand((x**2 + x)**3)", ""),
+    "C10-1": ("C10", "DiffVisitor::bvisit(Subs) differentiates the body when it mentions x (has_symbol) instead of when x is not one of the substituted variables",
+              "a Subs object whose substituted variable is the differentiation variable and also occurs in the body: Subs(Derivative(f(x,2y),x),{x:y}) differentiated by x (only built by Derivative::subs or Subs::create)", ""),
+    "C11-1": ("C11", "XReplaceVisitor::bvisit(Add) looks a whole term c*t up in `visited` (seeded from subs_dict only when cache == true) instead of subs_dict_",
+              "cache == false, a substitution key with a numeric coefficient other than 1 (2*x*y, 3*x) occurring as a summand of an Add", ""),
+    "C15-1": ("C15", "CodePrinter::print_scalar_literal prints Float/Half literals with numeric_limits<float>::digits10 = 6 significant digits (max_digits10 = 9 is needed)",
+              "ccode(e, CodePrinterPrecision::Float) with a constant of more than 6 significant digits (Integer 16777215, 1234.5625)", ""),
+    "C16-1": ("C16", "Parser::parse_numeric decides that a literal fits into long from its digit count (<= 19) instead of errno == ERANGE",
+              "an integer literal with 19 digits above LONG_MAX, i.e. |n| in [2^63, 10^19 - 1]: strtol saturates silently", ""),
+    "C18-1": ("C18", "SbmlParser::parse_identifier memoises symbols in local_parser_constants keyed by the LOWERCASED name",
+              "a reused SbmlParser: an earlier input (even one that fails to parse) with a mixed-case identifier (S, Km), a later input with the all-lowercase spelling (s, km)", ""),
+    "C26-1": ("C26", "matrix_mul flattening a nested MatrixMul REPLACES the accumulated scalar by the inner scalar when that is not 1",
+              "a nested product that carries a coefficient other than 1 AND a non-trivial coefficient accumulated before it: 3*(2*D) = 2*D, (3*A)*(2*B) = 2*(A*B)", ""),
+    "C30-1": ("C30", "solve_poly_quartic: `aby4 = a/4` renamed to `shift = -a/4`, one use in the g == 0 branch converted to sub(r, shift) instead of add(r, shift)",
+              "a quartic with non-zero x**3 coefficient and constant term whose depressed form has zero constant term (the mean of the roots, -a/4, is a root): (x-1)(x-2)**2(x+1)", ""),
     "C05-1": ("C05", "Complex::powcomp reduces the exponent with C++ `other.as_int() % 4` instead of the floored mod_f(other, 4)",
               "a NEGATIVE integer exponent not divisible by 4 on a pure-imaginary Gaussian rational (C++ % truncates towards zero, "
               "so rem is negative and falls into the wrong branch); positive exponents are unaffected", ""),
